@@ -442,12 +442,72 @@ theorem find_hmmer_hits_gene_sound (cut : Int → Int) (eqs : List (List Int)) (
     out.Pairwise (fun a b => a.hs ≤ b.hs) :=
   findHmmerHitsGene_sound cut eqs raw out h
 
+/-- **the best hit of each profile is chosen among the survivors of the competition, not before it**:
+    a raw hit above its cut-off (and above −1) that competes with no other such hit of the gene —
+    different objects sharing more than 20 residues — always has its profile represented in the
+    result, by a hit scoring at least as high; so a profile whose best copy loses to an equivalent
+    profile keeps its uncontested weaker copy (swapping the two filters falsifies this) -/
+theorem find_hmmer_hits_uncontested_profile_represented (cut : Int → Int) (eqs : List (List Int)) (raw : List FHit)
+    (hu : UidNodup raw) (h : FHit) (hh : h ∈ raw) (hc : cut h.prof < h.sc) (hs : -10 < h.sc)
+    (hno : ∀ o ∈ raw, cut o.prof < o.sc → competes h o = false) :
+    ∃ out, findHmmerHitsGene cut eqs raw = some out ∧ ∃ x ∈ out, x.prof = h.prof ∧ h.sc ≤ x.sc := by
+  obtain ⟨out, ho, hrep⟩ := findHmmerHitsGene_represents_survivors cut eqs raw hu
+  refine ⟨out, ho, hrep h ?_ hs⟩
+  have hf : h ∈ raw.filter (aboveCutoff cut) := List.mem_filter.mpr ⟨hh, by simpa [aboveCutoff] using hc⟩
+  apply foldl_filterPass_keeps_uncontested eqs _ (hu.sublist List.filter_sublist) h hf
+  intro o ho'
+  have := List.mem_filter.mp ho'
+  exact hno o this.1 (by simpa [aboveCutoff] using this.2)
+
+/-- in general: whatever survives the competition (and scores above −1) has its profile represented -/
+theorem find_hmmer_hits_survivors_represented (cut : Int → Int) (eqs : List (List Int)) (raw : List FHit)
+    (hu : UidNodup raw) : ∃ out, findHmmerHitsGene cut eqs raw = some out ∧
+      ∀ h ∈ eqs.foldl filterPass (raw.filter (aboveCutoff cut)), -10 < h.sc →
+        ∃ x ∈ out, x.prof = h.prof ∧ h.sc ≤ x.sc :=
+  findHmmerHitsGene_represents_survivors cut eqs raw hu
+
+/-- non-vacuity (the seeded scenario): profile 0 twice, its better copy `[0,100)`/32 loses to profile 1's
+    `[50,160)`/35 of the same equivalence group, its weaker copy `[300,400)`/31 is uncontested and stays;
+    with the filters swapped profile 0 would vanish from the gene -/
+example : findHmmerHitsGene (fun _ => 100) [[0, 1]]
+    [⟨0, 0, 0, 100, 320⟩, ⟨1, 1, 50, 160, 350⟩, ⟨2, 0, 300, 400, 310⟩] =
+    some [⟨1, 1, 50, 160, 350⟩, ⟨2, 0, 300, 400, 310⟩] := by decide
+example : (filterResults [[0, 1]] (filterMultiple
+    [⟨0, 0, 0, 100, 320⟩, ⟨1, 1, 50, 160, 350⟩, ⟨2, 0, 300, 400, 310⟩])) = some [⟨1, 1, 50, 160, 350⟩] := by decide
+
 /-- `hmmer.run_hmmer` (score / e-value cut of `build_hits`, then `remove_overlapping`): the locus'
     hits do not depend on the order of the hmmscan results -/
 theorem run_hmmer_gene_perm_invariant (cut : Int → Option Int) (minScore maxEvalue : Int) (r₁ r₂ : List RawHmm)
     (h : r₁.Perm r₂) (out : List HHit) (h1 : runHmmerGene cut minScore maxEvalue r₁ = .ok out) :
     runHmmerGene cut minScore maxEvalue r₂ = .ok out :=
   runHmmerGene_perm cut minScore maxEvalue h out h1
+
+/-- `refine_hmmscan_results` on a whole hmmscan output (`gather_by_query` + the gene loop): a gene's
+    entry is the refinement of that gene's own hits — genes do not interact, interleaving is irrelevant,
+    a gene without surviving hits has no entry (`get(gene, [])` is then the empty refinement) … -/
+theorem refine_record_is_per_gene (env : Env) (nb : Bool) (raw : List (Int × Hit)) (g : Int) :
+    lookupGene (refineRecord env nb raw) g = refine env nb ((raw.filter fun r => r.1 == g).map (·.2)) :=
+  refineRecord_lookup env nb raw g
+
+/-- … and does not depend on the order of the hmmscan output -/
+theorem refine_record_perm_invariant (env : Env) (nb : Bool) (r₁ r₂ : List (Int × Hit)) (h : r₁.Perm r₂) (g : Int) :
+    lookupGene (refineRecord env nb r₁) g = lookupGene (refineRecord env nb r₂) g :=
+  refineRecord_perm env nb h g
+
+/-- `run_hmmer(filter_overlapping=False)`: exactly the hits passing the two cuts, in hmmscan order -/
+theorem run_hmmer_unfiltered (cut : Int → Option Int) (minScore maxEvalue : Int) (raw : List RawHmm) :
+    runHmmerGene cut minScore maxEvalue raw false =
+      .ok ((raw.filter fun r => decide (minScore < r.hit.sc) && decide (r.ev < maxEvalue)).map (·.hit)) := by
+  have e : raw.filter (buildKeep minScore maxEvalue) =
+      raw.filter fun r => decide (minScore < r.hit.sc) && decide (r.ev < maxEvalue) := by
+    apply List.filter_congr
+    intro r _
+    simp only [buildKeep]
+    by_cases h1 : r.hit.sc ≤ minScore <;> by_cases h2 : maxEvalue ≤ r.ev <;> simp [h1, h2] <;> omega
+  simp only [runHmmerGene, e]
+  split
+  · rename_i h; rw [h]
+  · rfl
 
 /-- `domain_identification.find_domains` / `find_ab_motifs`: a function of the gene's hit *set* -/
 theorem find_domains_enumeration_invariant (env : Env) (L : Int) (r₁ r₂ : List Hit) (h : ∀ x, x ∈ r₁ ↔ x ∈ r₂) :
@@ -504,6 +564,16 @@ example : ([[⟨0, 0, 100, 1, 500⟩, ⟨1, 0, 100, 1, 500⟩, ⟨3, 0, 100, 1, 
             [⟨3, 0, 100, 1, 500⟩, ⟨0, 0, 100, 1, 500⟩, ⟨1, 0, 100, 1, 500⟩],
             [⟨3, 0, 100, 1, 500⟩, ⟨1, 0, 100, 1, 500⟩, ⟨0, 0, 100, 1, 500⟩]] : List (List Hit)).map
     (refine exEnv false) = List.replicate 6 [⟨0, 0, 100, 1, 500⟩] := by decide
+/-- equal starts *across profiles* with equal scores, one profile with two fragments (the shape that
+    made a set-ordered `_merge_domain_list` depend on PYTHONHASHSEED): `refine_enumeration_invariant`
+    covers it — one answer for every enumeration; the hit with the smaller total key wins the tie -/
+example : ([[⟨1, 0, 29, 2, 20⟩, ⟨5, 0, 30, 2, 20⟩, ⟨5, 40, 69, 1, 20⟩],
+            [⟨1, 0, 29, 2, 20⟩, ⟨5, 40, 69, 1, 20⟩, ⟨5, 0, 30, 2, 20⟩],
+            [⟨5, 0, 30, 2, 20⟩, ⟨1, 0, 29, 2, 20⟩, ⟨5, 40, 69, 1, 20⟩],
+            [⟨5, 0, 30, 2, 20⟩, ⟨5, 40, 69, 1, 20⟩, ⟨1, 0, 29, 2, 20⟩],
+            [⟨5, 40, 69, 1, 20⟩, ⟨1, 0, 29, 2, 20⟩, ⟨5, 0, 30, 2, 20⟩],
+            [⟨5, 40, 69, 1, 20⟩, ⟨5, 0, 30, 2, 20⟩, ⟨1, 0, 29, 2, 20⟩]] : List (List Hit)).map
+    (refine { len := fun _ => 30 } false) = List.replicate 6 [⟨1, 0, 29, 2, 20⟩, ⟨5, 40, 69, 1, 20⟩] := by decide
 /-- exactly on the 20 % margin: start 80 = 100 − 0.2·100 is not a collision, 79 is -/
 example : refine exEnv true [⟨0, 0, 100, 1, 500⟩, ⟨1, 80, 180, 1, 400⟩] =
     [⟨0, 0, 100, 1, 500⟩, ⟨1, 80, 180, 1, 400⟩] := by decide
